@@ -313,6 +313,8 @@ def run(ctx):
     _c11.copy_option_clause(ctx, res, cn_, 'C01', 'C01.n', outputs=False)
     _cmn.import_clauses(ctx, res, 'C12', ['C12.a', 'C12.c', 'C12.d', 'C12.e', 'C12.f'], 'C01', 'C01.o', 'R-ORDER',
                         'a recording stored through the asynchronous cassette holds every captured entry, each applied once and in order', floor=4)
+    # ---- C01.p user code that runs after the operation (the metadata extractor) is not part of the recorded run (shared with C03.i)
+    rm.extractor_runs_idle_clause(ctx, res, 'C01', 'C01.p')
     return res
 
 
